@@ -520,3 +520,80 @@ def cosserat_rod_forcing_grids(K, kind, dim, E=2, real_ctor=False):
         for a in ((2,) if planar else (0, 1, 2)):
             K.ensures_eq(f"net_moment_of_nodal_forces_and_lab_couples_is_minus_moment_of_marker_forces[{a}]",
                          reduce_all(rots, body_m[a] + mark_m[a]), 0, props=("C08",))
+
+
+# =============================================================================================
+# surface grid: what the constructor lays out (cap rings), on concrete tapered rods
+# =============================================================================================
+def _concrete_rod(radii):
+    E = len(radii)
+    rod = Body()
+    rod.n_elems = E
+    rod.position_collection = np.zeros((3, E + 1))
+    rod.position_collection[2] = np.arange(E + 1.0)
+    rod.velocity_collection = np.zeros((3, E + 1))
+    rod.omega_collection = np.zeros((3, E))
+    rod.director_collection = np.repeat(np.eye(3).reshape(3, 3, 1), E, axis=2)
+    rod.mass = np.ones(E + 1)
+    rod.radius = np.array(radii, dtype=float)
+    rod.lengths = np.ones(E)
+    rod.tangents = np.repeat(np.array([[0.0], [0.0], [1.0]]), E, axis=1)
+    return rod
+
+
+@unit("surface_grid_constructor_layout", props=("C09",), kernels=False,
+      configs=[dict(radii=r, density=d, with_cap=c) for r, d, c in (
+          ((1.0, 0.3), 3, False), ((1.0, 1.0), 14, True), ((1.0, 0.5), 26, True), ((0.5, 1.0), 26, True),
+          ((0.4, 0.7, 1.0), 20, True), ((1.0, 0.6, 0.2), 13, True), ((0.05, 0.1), 40, True))],
+      assumes=("layouts bounded: the listed tapered rods / densities / cap options; concrete execution of the real constructor",
+               "cap rings as documented in the constructor: an end with P > 1 surface points gets n = max(floor(P / 2 pi), 1) "
+               "concentric rings at the fractions j / n (j = 0..n-1) of THAT end's radius, plus the surface ring at ratio 1"))
+def surface_grid_constructor_layout(K, radii, density, with_cap):
+    """real CosseratRodSurfaceForcingGrid.__init__ (and the positions it computes for the rod it was given): every marker sits
+    at its element's radius times its cap ratio from the element centre, where the expected ratio of every marker is derived
+    here independently of the table the constructor stores."""
+    import importlib
+    import math
+    radii = tuple(radii)
+    E = len(radii)
+    m = importlib.import_module(CR_MOD)
+    el = [importlib.import_module(x) for x in EL_MODS]
+    saved = [(mod, mod.np) for mod in [m] + el]
+    cls = K.repo(f"{CR_MOD}:CosseratRodSurfaceForcingGrid")
+    try:
+        for mod, _ in saved:
+            mod.np = np
+        rod = _concrete_rod(radii)
+        g = cls(grid_dim=3, cosserat_rod=rod, surface_grid_density_for_largest_element=density, with_cap=with_cap)
+    finally:
+        for mod, v in saved:
+            mod.np = v
+    P = [int(round(r / max(radii) * density)) for r in radii]
+    P = [p if p >= 3 else 1 for p in P]
+    rings = {}
+    for end in ((0, E - 1) if with_cap else ()):
+        rings[end] = max(int(P[end] / (2 * math.pi)), 1) if P[end] > 1 else 0
+    K.ensures("index_windows_cover_all_markers_in_element_order",
+              int(g.start_idx[0]) == 0 and int(g.end_idx[-1]) == g.num_lag_nodes == len(g.grid_point_radius_ratio)
+              and all(int(g.end_idx[e]) == int(g.start_idx[e + 1]) for e in range(E - 1)))
+    xc = 0.5 * (rod.position_collection[:, 1:] + rod.position_collection[:, :-1])
+    for e in range(E):
+        lo, hi = int(g.start_idx[e]), int(g.end_idx[e])
+        ratios = np.asarray(g.grid_point_radius_ratio[lo:hi], dtype=float)
+        n = rings.get(e, 0)
+        expected = sorted({j / n for j in range(n)} | ({1.0} if P[e] > 1 else {0.0 if n else 1.0}))
+        got = sorted(set(np.round(ratios, 12)))
+        if P[e] == 1 and not n:
+            # a single marker on the element centre (its stored ratio is irrelevant: the local offset is zero)
+            K.ensures(f"single_centre_marker[{e}]", hi - lo == 1)
+        else:
+            K.ensures(f"ring_ratios_are_j_over_n_of_this_elements_radius_plus_the_surface_ring[{e}]",
+                      len(got) == len(expected) and all(abs(a - b) < 1e-12 for a, b in zip(got, expected)),
+                      note=f"got {got}, expected {expected}")
+            K.ensures(f"surface_ring_has_the_scaled_point_count[{e}]", int(np.sum(np.abs(ratios - 1.0) < 1e-12)) == P[e])
+        # the property itself, on the rod the grid was constructed for: distance from the element centre
+        dist = np.sqrt(((g.position_field[:, lo:hi] - xc[:, e:e + 1]) ** 2).sum(axis=0))
+        centre_only = P[e] == 1
+        for k in range(hi - lo):
+            exp_ratio = 0.0 if centre_only else min(expected, key=lambda v: abs(v - float(ratios[k])))
+            K.ensures_eq(f"marker_distance_is_radius_times_ring_fraction[{e},{k}]", float(dist[k]), radii[e] * exp_ratio)
